@@ -280,6 +280,12 @@ def _lfda_case(spec, j):
   i = spec['i']
   variant = ['plain', 'unbalanced', 'plain', 'offset', 'int', 'illcond',
              'small_scale'][i % 7]
+  # the same exactly representable points moved far from the origin: the
+  # documented formula is built from pairwise differences, so the reference
+  # evaluated on the unmoved points is the reference for the moved ones
+  shift = 1e8 if i % 8 == 7 else 0.0
+  if shift:
+    variant = 'dyadic'
   # (up to 8 features: the documented default k = min(7, d - 1) stops
   # growing at d = 8; classes then need more than 8 members to see it)
   ds = D.well_formed(rng, dmax=8, variant=variant,
@@ -293,12 +299,15 @@ def _lfda_case(spec, j):
   kparam = kopts[(i // 3) % len(kopts)]
   ncomp = [None, 1, max(1, d - 1), int(rng.randint(1, d + 1))][(i // 2) % 4]
   det = {'d': d, 'n': n, 'embedding_type': emb, 'k': kparam,
-         'n_components': ncomp, 'class_sizes': np.bincount(y)}
+         'n_components': ncomp, 'class_sizes': np.bincount(y),
+         'shift': shift}
   del _lfda['caps'][:]
   est = LFDA(n_components=ncomp, k=kparam, embedding_type=emb)
   with Quiet():
     try:
-      est.fit(X, y)
+      est.fit(X + shift if shift else X, y)
+      if shift:
+        j.count('lfda.far-from-origin')
     except Exception as e:
       j.violated('C09.lfda.metric-from-affinity',
                  dict(det, raised=repr(e)[:200]), mechanism='lfda-raised')
@@ -354,7 +363,9 @@ def _lfda_case(spec, j):
   for c in classes:
     Xc = np.asarray(X[y == c], dtype=float)
     k_run = min(k_run, len(Xc) - 1)
-    dist_c = pairwise_distances(Xc, metric='l2', squared=True)
+    # (squared distances from coordinate differences: accurate wherever the
+    # data lies)
+    dist_c = ((Xc[:, None, :] - Xc[None, :, :]) ** 2).sum(axis=-1)
     d10_sigma[c] = np.sqrt(np.partition(dist_c, k_run, axis=0)[:, k_run])
   d10_match = True
   sigma_ok = True
